@@ -4,7 +4,7 @@
    (BC / B elements, 65536 / 256 when the counter starts at 0, overlapping ranges, final PC) is checked in the
    correspondence run by executing the real code to completion (up to 65,536 Steps) against the extracted model and,
    when something breaks, against a direct functional specification of the whole operation (checks/c09.py). *)
-From Z80V Require Import Proofs.SpecFacts.
+From Z80V Require Import Proofs.SpecFacts Proofs.Block Proofs.Iter.
 
 Theorem C09_tie : forall cpu, WF cpu -> Step cpu = spec_step impl_unspec cpu.
 Proof. exact Step_ok. Qed.
@@ -58,3 +58,45 @@ Theorem C09_io_element_counts : forall u (dec : bool) cpu, g_IO cpu = true -> g_
   g_BC_Hi (block_step u BOUT dec cpu) = u8 (g_BC_Hi cpu - 1) /\ g_HL (block_step u BOUT dec cpu) = wreg (step (regw (g_HL cpu))).
 Proof. exact io_element. Qed.
 Print Assumptions C09_io_element_counts.
+
+(* ---- LDIR / LDDR as a whole operation, any number of repetitions (induction over the elements), for the GENERATED Step ----
+   n = BC, or 65,536 when BC = 0 (regw BC = u16 n covers both).  From a well-formed state with no request pending whose
+   PC is on ED B0 (dec = false) / ED B8 (dec = true) in the user's memory, n Steps: perform the sequential byte-by-byte
+   copy -- each element read after the previous one was written, so overlapping ranges behave as on the Z80 --,
+   move HL and DE by n (modulo 65536), leave BC = 0, stay on the instruction for the first n-1 Steps (that is where an
+   interrupt is accepted, C07) and end with PC behind it.  The copy must not overwrite the instruction's own two bytes. *)
+Theorem C09_ldir_lddr_whole_operation : forall (dec : bool) (n : nat) cpu, WF cpu -> on_ldxr dec cpu ->
+  1 <= Z.of_nat n <= 65536 -> regw (g_BC cpu) = u16 (Z.of_nat n) ->
+  (forall j, (j < n)%nat -> biter dec j (regw (g_DE cpu)) <> g_PC cpu /\ biter dec j (regw (g_DE cpu)) <> inc16 (g_PC cpu)) ->
+  let cpu' := iter n cpu in
+  regw (g_HL cpu') = biter dec n (regw (g_HL cpu)) /\ regw (g_DE cpu') = biter dec n (regw (g_DE cpu)) /\
+  regw (g_BC cpu') = 0 /\
+  ram (g_W cpu') = copy dec n (ram (g_W cpu)) (regw (g_HL cpu)) (regw (g_DE cpu)) /\
+  g_PC cpu' = u16 (g_PC cpu + 2) /\
+  (forall k, (k < n)%nat -> g_PC (iter k cpu) = g_PC cpu).
+Proof.
+  intros dec n cpu H Hon Hn Hbc Hd. cbv zeta. rewrite iter_ok by exact H.
+  destruct (ldxr_run impl_unspec dec n cpu H Hon Hn Hbc Hd) as (A & B & C & D & E & F).
+  repeat split; try assumption. intros k Hk. rewrite iter_ok by exact H. apply F, Hk.
+Qed.
+Print Assumptions C09_ldir_lddr_whole_operation.
+(* the pointers in closed form *)
+Theorem C09_pointers_closed_form : forall (dec : bool) n w, is16 w ->
+  biter dec n w = if dec then u16 (w - Z.of_nat n) else u16 (w + Z.of_nat n).
+Proof. exact biter_closed. Qed.
+Print Assumptions C09_pointers_closed_form.
+(* the premises are satisfiable: LDIR at 0100h copying 3 bytes from 4000h to 5000h *)
+Definition ldir_demo : CPU :=
+  s_W (s_PC (s_BC (s_DE (s_HL cpu0 (wreg 16384)) (wreg 20480)) (wreg 3)) 256)
+      (mk_World (fun a => if a =? 256 then 237 else if a =? 257 then 176 else 7) [] []).
+Example C09_premises_hold :
+  WF ldir_demo /\ on_ldxr false ldir_demo /\ regw (g_BC ldir_demo) = u16 (Z.of_nat 3) /\
+  (forall j, (j < 3)%nat -> biter false j (regw (g_DE ldir_demo)) <> g_PC ldir_demo /\
+                            biter false j (regw (g_DE ldir_demo)) <> inc16 (g_PC ldir_demo)).
+Proof.
+  split; [|split; [|split]].
+  - cbv [WF WF_gpr WF_reg WF_mem WF_irq ldir_demo cpu0 wreg hi lo]; cbv_struct; unfold is8, is16; repeat split; try lia; vm_compute; intuition discriminate.
+  - unfold on_ldxr. repeat split; vm_compute; reflexivity.
+  - vm_compute. reflexivity.
+  - intros j Hj. destruct j as [|[|[|j]]]; try lia; split; vm_compute; discriminate.
+Qed.
